@@ -12,3 +12,12 @@ package version
 //@   ensures err == nil ==> spos(r) == old(spos(r)) + 15
 //@   ensures err == nil ==> v == VersionB1 || v == VersionB2
 //@   assigns spos(r)
+
+// The magic bytes are built by appending to a package-level slice: that is a
+// write to shared memory unless the slice has no spare capacity (it is a
+// literal: cap == len), which the append's frame obligation decides.
+//@ func (Version).HeaderMagicBytes
+//@   props C04 C18
+//@   may_panic
+//@   ensures fresh(result) && len(result) == 15
+//@   assigns nothing
